@@ -304,7 +304,7 @@ func VerifC42StatelessRoundTrip() {
 //
 //verif:harness prop=C42 reach=done,accepted,truncated,trailing,bad-marker,spare-header-bits unwind=12 budget=200 thorough.budget=2400 thorough.paths=200000
 func VerifC42DecompressArbitrary() {
-	forms := verifC42Forms(vr.Param(0, 1) == 1, true)
+	forms := verifC42Forms(false, true)
 	v := verifC42NewVote(forms)
 	wellFormed := forms[0] != 5
 	if v.mask&bitPer != 0 && forms[1] == 5 {
